@@ -430,5 +430,14 @@ def _build():
     return out
 
 
-FINDINGS = _build()
+FINDINGS = _build() + [
+    dict(id="C03-docstring-hop-double-quote-in-default", property="C03",
+         pattern=dict(check="chain_hop", last_hop="docstring", quote_in_default=True, field="parse", observed="raises SyntaxError"),
+         what="[R-default-quote] docstring hop of a string default containing a double quote raises SyntaxError - as C01-double-quote-in-string-default-not-escaped",
+         site="cdd/shared/pure_utils.py:quote", example="{'alpha': {'typ': 'str', 'default': 'say \"hi\"'}} -> docstring hop"),
+    dict(id="C03-docstring-hop-cuts-string-default-at-full-stop", property="C03",
+         pattern=dict(check="chain_hop", last_hop="docstring", dot_in_default=True, field={"in": ["parse", "default"]}, observed={"in": ["raises SyntaxError", "str"]}),
+         what="[R-default-cut-at-dot] docstring hop of a string default containing a full stop ('a.b'): value cut at the dot or SyntaxError - as C01-string-default-cut-at-full-stop",
+         site="cdd/shared/defaults_utils.py:extract_default", example="{'alpha': {'typ': 'str', 'default': 'a.b'}} -> docstring hop"),
+]
 FIXED = []
